@@ -132,15 +132,26 @@ Accepts(style, toks) == Accept(style, Run(toks))
 (* add_one, Item::Separator, CssData::into_buffer) emits for an output tree *)
 (* given as a flat program of statements [k, a]:                            *)
 (*   rule  a: "asc" | "na"      style rule (selector ASCII / non-ASCII)      *)
-(*   media a: "-"               @media block                                 *)
-(*   atb   a: "-"               unknown at-rule with a block                  *)
-(*   decl  a: value kind        declaration                                  *)
+(*   media a: "-" | "na"        @media block (query ASCII / non-ASCII)       *)
+(*   atb   a: "-" | "na" | "name"   unknown at-rule with a block (non-ASCII  *)
+(*                              text in its prelude / in its NAME)           *)
+(*   sup   a: "-" | "na"        @supports block (condition)                  *)
+(*   kf    a: "-" | "na"        @keyframes block (name)                      *)
+(*   kfs   a: "asc" | "na"      keyframe selector block inside @keyframes    *)
+(*   imp   a: "-" | "na"        @import url(..) statement                    *)
+(*   decl  a: value kind        declaration; "pna": non-ASCII property NAME  *)
 (*   cprop a: "plain" | "nl" | "na"   custom property                        *)
 (*   cmt   a: "one" | "multi" | "na"  comment                                *)
-(*   ats   a: "-"               body-less at-rule statement                  *)
+(*   ats   a: "-" | "na" | "name"   body-less at-rule statement              *)
+(* so that a non-ASCII character can sit in every position class of the      *)
+(* output: selector, property name, value, custom property, comment, @import *)
+(* url, at-rule name, at-rule prelude, @media query, @supports condition,    *)
+(* @keyframes name, keyframe selector.                                       *)
 (*   close                                                                   *)
 (* Only newline positions and token classes matter, not spacing.            *)
-DeclKinds == {"id", "str", "strna", "url", "urlna", "urlq", "list", "call", "idna"}
+DeclKinds == {"id", "str", "strna", "url", "urlna", "urlq", "list", "call", "idna", "pna"}
+BlockKinds == {"rule", "media", "atb", "sup", "kf", "kfs"}
+KeptEmpty == {"atb", "sup", "kf"}          \* at-rules that are written also with an empty block
 
 ValueToks(a) ==
   CASE a = "id"    -> <<Tok("other", 0)>>
@@ -152,6 +163,7 @@ ValueToks(a) ==
     [] a = "urlq"  -> <<Tok("other", 0), Tok("lparen", 0), Tok("string", 0), Tok("rparen", 0)>>
     [] a = "list"  -> <<Tok("lbrack", 0), Tok("other", 0), Tok("rbrack", 0)>>
     [] a = "call"  -> <<Tok("other", 0), Tok("lparen", 0), Tok("other", 0), Tok("rparen", 0)>>
+    [] a = "pna"   -> <<Tok("other", 0)>>
 
 CpropTok(a) == Tok("customprop_value", IF a = "nl" THEN 2 ELSE IF a = "na" THEN 1 ELSE 0)
 CmtTok(a)   == Tok("comment", IF a = "multi" THEN 2 ELSE IF a = "na" THEN 1 ELSE 0)
@@ -164,7 +176,7 @@ AT == Tok("at_keyword", 0)
 RECURSIVE MatchFrom(_, _, _)
 MatchFrom(prog, i, d) ==
   IF i > Len(prog) THEN i
-  ELSE IF prog[i].k \in {"rule", "media", "atb"} THEN MatchFrom(prog, i + 1, d + 1)
+  ELSE IF prog[i].k \in BlockKinds THEN MatchFrom(prog, i + 1, d + 1)
   ELSE IF prog[i].k = "close" THEN (IF d = 1 THEN i ELSE MatchFrom(prog, i + 1, d - 1))
   ELSE MatchFrom(prog, i + 1, d)
 Match(prog, i) == MatchFrom(prog, i + 1, 1)
@@ -175,9 +187,9 @@ RECURSIVE Prints(_, _, _, _)
 Prints(style, prog, lo, hi) ==
   IF lo > hi THEN FALSE
   ELSE LET st == prog[lo] IN
-    IF st.k \in {"rule", "media"} THEN
+    IF st.k \in BlockKinds \ KeptEmpty THEN
          LET m == Match(prog, lo) IN Prints(style, prog, lo + 1, m - 1) \/ Prints(style, prog, m + 1, hi)
-    ELSE IF st.k = "atb" THEN TRUE
+    ELSE IF st.k \in KeptEmpty THEN TRUE
     ELSE IF st.k = "cmt" /\ style = "compressed" THEN Prints(style, prog, lo + 1, hi)
     ELSE TRUE
 
@@ -189,22 +201,27 @@ Emit(style, prog, lo, hi, top) ==
   ELSE
     LET st  == prog[lo]
         exp == style = "expanded"
-        blk == st.k \in {"rule", "media", "atb"}
+        blk == st.k \in BlockKinds
+        NA  == Tok("nonascii", 1)
+        atk == Tok("at_keyword", IF st.a = "name" THEN 1 ELSE 0)
+        pre == IF st.a = "na" THEN (IF st.k = "sup" THEN <<O, Tok("lparen", 0), O, Tok("string", 1), Tok("rparen", 0)>>
+                                    ELSE IF st.k = "imp" THEN <<O, Tok("url", 1)>> ELSE <<O, NA>>)
+               ELSE IF st.k = "imp" THEN <<O, Tok("url", 0)>> ELSE <<O>>
         m   == IF blk THEN Match(prog, lo) ELSE lo
         sep == IF exp /\ top = 1 /\ Prints(style, prog, m + 1, hi) THEN <<NL>> ELSE <<>>
-        head == IF st.k = "rule" THEN (IF st.a = "na" THEN <<Tok("nonascii", 1)>> ELSE <<O>>) ELSE <<AT, O>>
+        head == IF st.k \in {"rule", "kfs"} THEN (IF st.a = "na" THEN <<NA>> ELSE <<O>>) ELSE <<atk>> \o pre
         body == IF blk THEN Emit(style, prog, lo + 1, m - 1, 0) ELSE <<>>
         this ==
           IF blk THEN
-             IF st.k # "atb" /\ ~Prints(style, prog, lo + 1, m - 1) THEN <<>>
+             IF st.k \notin KeptEmpty /\ ~Prints(style, prog, lo + 1, m - 1) THEN <<>>
              ELSE IF exp THEN
                   (IF body = <<>> THEN head \o <<O, Tok("open", 0), Tok("close", 0), NL>>
                    ELSE head \o <<O, Tok("open", 0), NL>> \o body \o <<Tok("close", 0), NL>>)
              ELSE head \o <<Tok("open", 0)>> \o body \o <<Tok("close", 0)>>
-          ELSE IF st.k = "decl" THEN <<O>> \o ValueToks(st.a) \o <<SC>> \o (IF exp THEN <<NL>> ELSE <<>>)
+          ELSE IF st.k = "decl" THEN (IF st.a = "pna" THEN <<NA, O>> ELSE <<O>>) \o ValueToks(st.a) \o <<SC>> \o (IF exp THEN <<NL>> ELSE <<>>)
           ELSE IF st.k = "cprop" THEN <<O, CpropTok(st.a), SC>> \o (IF exp THEN <<NL>> ELSE <<>>)
           ELSE IF st.k = "cmt" THEN (IF exp THEN <<CmtTok(st.a), NL>> ELSE <<>>)
-          ELSE IF st.k = "ats" THEN <<AT, O, SC>> \o (IF exp THEN <<NL>> ELSE <<>>)
+          ELSE IF st.k \in {"ats", "imp"} THEN <<atk>> \o pre \o <<SC>> \o (IF exp THEN <<NL>> ELSE <<>>)
           ELSE <<>>
     IN this \o (IF this = <<>> THEN <<>> ELSE sep) \o Emit(style, prog, m + 1, hi, top)
 
